@@ -267,6 +267,38 @@ fn access_event(c: &Conc, s: &Shape) -> Value {
     json!({"ev": "access", "shape": o.to_json(), "obs": v.unwrap_or(json!({"panic": true}))})
 }
 
+/// multipoint! and polyline! in their tuple and struct forms against the constructors
+fn macro_events(tr: &mut Trace, c: &Conc, r: &mut Rng) {
+    let g = GenCfg::small();
+    for &t in &[8, 28, 18, 3, 23, 13] {
+        let p: Vec<APoint> = (0..4).map(|_| gen_point(r, t, &g)).collect();
+        let (x, y, z, m) = (|i: usize| c.x(p[i][0]), |i: usize| c.x(p[i][1]), |i: usize| c.z(p[i][2]), |i: usize| c.z(p[i][3]));
+        let (tuple_form, struct_form, a): (Shape, Shape, AShape) = match t {
+            8 => (Shape::Multipoint(shapefile::multipoint![(x(0), y(0)), (x(1), y(1)), (x(2), y(2))]),
+                  Shape::Multipoint(shapefile::multipoint![{x: x(0), y: y(0)}, {x: x(1), y: y(1)}, {x: x(2), y: y(2)}]),
+                  AShape { t, parts: vec![p[..3].to_vec()], kinds: vec![], bbox: [0; 8] }),
+            28 => (Shape::MultipointM(shapefile::multipoint![(x(0), y(0), m(0)), (x(1), y(1), m(1)), (x(2), y(2), m(2))]),
+                   Shape::MultipointM(shapefile::multipoint![{x: x(0), y: y(0), m: m(0)}, {x: x(1), y: y(1), m: m(1)}, {x: x(2), y: y(2), m: m(2)}]),
+                   AShape { t, parts: vec![p[..3].to_vec()], kinds: vec![], bbox: [0; 8] }),
+            18 => (Shape::MultipointZ(shapefile::multipoint![(x(0), y(0), z(0), m(0)), (x(1), y(1), z(1), m(1)), (x(2), y(2), z(2), m(2))]),
+                   Shape::MultipointZ(shapefile::multipoint![{x: x(0), y: y(0), z: z(0), m: m(0)}, {x: x(1), y: y(1), z: z(1), m: m(1)}, {x: x(2), y: y(2), z: z(2), m: m(2)}]),
+                   AShape { t, parts: vec![p[..3].to_vec()], kinds: vec![], bbox: [0; 8] }),
+            3 => (Shape::Polyline(shapefile::polyline![[(x(0), y(0)), (x(1), y(1))], [(x(2), y(2)), (x(3), y(3))]]),
+                  Shape::Polyline(shapefile::polyline![[{x: x(0), y: y(0)}, {x: x(1), y: y(1)}], [{x: x(2), y: y(2)}, {x: x(3), y: y(3)}]]),
+                  AShape { t, parts: vec![p[..2].to_vec(), p[2..].to_vec()], kinds: vec![], bbox: [0; 8] }),
+            23 => (Shape::PolylineM(shapefile::polyline![[(x(0), y(0), m(0)), (x(1), y(1), m(1))], [(x(2), y(2), m(2)), (x(3), y(3), m(3))]]),
+                   Shape::PolylineM(shapefile::polyline![[{x: x(0), y: y(0), m: m(0)}, {x: x(1), y: y(1), m: m(1)}], [{x: x(2), y: y(2), m: m(2)}, {x: x(3), y: y(3), m: m(3)}]]),
+                   AShape { t, parts: vec![p[..2].to_vec(), p[2..].to_vec()], kinds: vec![], bbox: [0; 8] }),
+            _ => (Shape::PolylineZ(shapefile::polyline![[(x(0), y(0), z(0), m(0)), (x(1), y(1), z(1), m(1))], [(x(2), y(2), z(2), m(2)), (x(3), y(3), z(3), m(3))]]),
+                  Shape::PolylineZ(shapefile::polyline![[{x: x(0), y: y(0), z: z(0), m: m(0)}, {x: x(1), y: y(1), z: z(1), m: m(1)}], [{x: x(2), y: y(2), z: z(2), m: m(2)}, {x: x(3), y: y(3), z: z(3), m: m(3)}]]),
+                  AShape { t, parts: vec![p[..2].to_vec(), p[2..].to_vec()], kinds: vec![], bbox: [0; 8] }),
+        };
+        let built = build(c, &a);
+        tr.run(json!({"ev": "macro", "t": t, "built": abstract_shape(c, &built).to_json(),
+                      "tuple": abstract_shape(c, &tuple_form).to_json(), "struct": abstract_shape(c, &struct_form).to_json()}));
+    }
+}
+
 fn sizes_event(shapes: &[Shape], shp: &[u8]) -> Value {
     let mut announced = vec![];
     let mut emitted = vec![];
@@ -468,6 +500,11 @@ pub fn run(a: &Args) {
                 let shapes: Vec<AShape> = v["shapes"].as_array().unwrap().iter().map(AShape::from_json).collect();
                 id += 1;
                 run_case(&mut tr, &c, &prop, t, &shapes, &tmp.0, id);
+            }
+        }
+        if prop == "C01" || prop == "all" {
+            for _ in 0..5 {
+                macro_events(&mut tr, &c, &mut r);
             }
         }
         for &t in ALL_TYPES.iter() {
